@@ -58,6 +58,7 @@ class PoolStory:
         self.owner = {}             # live group name -> Req
         self.tasks = {}
         self.set_size_steps = []    # (step, value, ok)
+        self.early = None           # (step, value) of an assignment made before the first request
         self.gac_steps = []
         self.flush_steps = []
         self.apis = []              # (kind, re, step)
@@ -69,7 +70,7 @@ class PoolStory:
 class Story:
     def __init__(self, lines, obs_lines, extras=None):
         self.lines = lines
-        self.toks = [ln.split() for ln in lines]
+        self.toks = [[("" if t == "''" else t) for t in ln.split()] for ln in lines]     # `''` = the empty group name
         self.obs = [O.parse(o) if (o not in ("reset", "mark", "bad-op")) else None for o in obs_lines]
         self.extras = extras or [None] * len(lines)
         self.pools = []
@@ -150,6 +151,10 @@ class Story:
                     r.cancelled_at = j
             ps.owner.clear()
         elif k == "set_size":
+            if res == "ok" and not ps.reqs and not ps.set_size_steps:
+                # assigned before the pool was ever asked for anything: that *is* the size the pool was given (C01's
+                # quantifier: "fixed while tasks are in flight"); read by the C01 / C02 monitors only
+                ps.early = (j, int(op[1]))
             ps.set_size_steps.append((j, int(op[1]), res == "ok"))
         elif k == "gac":
             ps.gac_steps.append(j)
